@@ -400,6 +400,19 @@ def r5_lumped_once(ctx):
                     isinstance(getattr(uses[0], '_parent', None), ast.BinOp) and isinstance(uses[0]._parent.op, ast.Mult)
                 ctx.check('R5.lumped-once', f'{s_} step factor (numerical)', ok, key(f, 'numerical'),
                           'the numerical solver does not multiply each step by the single lumped loss located at that step')
+                # the length of each step is that step's own interval of the z grid (the grid is refined around lumped losses and
+                # pumps, so it is not uniform): an array of consecutive differences of z, indexed by the step - or walked by the loop
+                from ..pattern import mexpr
+                diffs = {nm for nm, dd in defs.items() for _, v in dd if isinstance(v, ast.AST) and
+                         (mexpr('V_z[1:] - V_z[:-1]', v) is not None or mexpr('diff(V_z)', v) is not None)}
+                per_step = any(isinstance(x, ast.Subscript) and isinstance(x.value, ast.Name) and x.value.id in diffs and
+                               iv in {y.id for y in ast.walk(x.slice) if isinstance(y, ast.Name)} for x in ast.walk(lp)) or \
+                    (it.func.id == 'enumerate' and bool(it.args) and (
+                        (isinstance(it.args[0], ast.Name) and it.args[0].id in diffs) or
+                        mexpr('V_z[1:] - V_z[:-1]', it.args[0]) is not None or mexpr('diff(V_z)', it.args[0]) is not None))
+                ctx.check('R5.lumped-once', f'{s_} step length (numerical)', per_step, key(f, 'numerical-step'),
+                          'the numerical solver does not advance each step by that step\'s own interval of the (non-uniform) z grid: with '
+                          'a lumped loss or a pump refining the grid the losses and gains are integrated over wrong lengths')
     ctx.need('R5.lumped-once', 2)
 
 
